@@ -87,9 +87,8 @@ Definition logfmt_op (from : option expr) (r : record) : res (option record) :=
 Definition pchar_match (p c : N) : bool :=
   if (p =? 32)%N then is_ws c else (ascii_lower p =? ascii_lower c)%N.
 
-(** a quoted keyword is case-sensitive (fix 9cc9c86); its blanks still match any whitespace *)
-Definition pchar_exact (p c : N) : bool :=
-  if (p =? 32)%N then is_ws c else (p =? c)%N.
+(** a quoted keyword is its literal text: case-sensitive (fix 9cc9c86), a blank is a blank *)
+Definition pchar_exact (p c : N) : bool := (p =? c)%N.
 
 Fixpoint seg_match (pm : N -> N -> bool) (p t : str) : option str :=
   match p with
